@@ -55,7 +55,8 @@ type ruleRow struct {
 	L           []int    `json:"L"`
 	Shape       string   `json:"shape"`
 	Red         bool     `json:"red"`
-	Dat         bool     `json:"dat"`
+	Datf        string   `json:"datf"` // absent | emptyList | emptySet | list | set
+	Dat         bool     `json:"dat"`  // the datum collection is non-empty
 	Decl        string   `json:"decl"`
 	DeclRed     string   `json:"declRed"`
 	DeclDat     string   `json:"declDat"`
@@ -584,7 +585,8 @@ type txShape struct {
 	dat      bool
 	redForm  string
 	datForm  string
-	tagged   bool // tag-258 sets in the witness set
+	datField []byte // the bytes under witness-set key 4 (nil: no key 4)
+	tagged   bool   // tag-258 sets for the scripts in the witness set
 	declared []byte
 }
 
@@ -634,9 +636,8 @@ func buildTx(s *txShape) []byte {
 		e.raw(scriptBytes[l]) // a CBOR byte string
 		ents = append(ents, ent{witnessKeyOfLang[l], e.b})
 	}
-	if s.dat {
-		o, _ := datums(s.datForm, s.tagged)
-		ents = append(ents, ent{4, o})
+	if s.datField != nil {
+		ents = append(ents, ent{4, s.datField})
 	}
 	if s.red {
 		o, _ := redeemers(s.redForm)
@@ -715,7 +716,7 @@ func rulesMode(rep *vh.Reporter, rng *rand.Rand, eraName, viewsPath, rulesPath s
 		rep.Dead("rules %s: %v", rulesPath, err)
 	}
 	rk := func(r *ruleRow) string {
-		return fmt.Sprintf("L=%s:shape=%s:red=%d:dat=%d:decl=%s", lkey(r.L), r.Shape, b2i(r.Red), b2i(r.Dat), r.Decl)
+		return fmt.Sprintf("L=%s:shape=%s:red=%d:dat=%s:decl=%s", lkey(r.L), r.Shape, b2i(r.Red), r.Datf, r.Decl)
 	}
 	sort.SliceStable(rows, func(i, j int) bool { return rk(&rows[i]) < rk(&rows[j]) })
 
@@ -784,7 +785,27 @@ func rulesMode(rep *vh.Reporter, rng *rand.Rand, eraName, viewsPath, rulesPath s
 		s.tagged = era.setTags && rng.Intn(2) == 0
 
 		redOrig, redCanon := redeemers(s.redForm)
-		datOrig, datCanon := datums(s.datForm, s.tagged)
+		// the datum field: absent, present but empty ([] or 258([])), or two datums
+		// as a plain list / tag-258 set
+		var datOrig, datCanon, emptyField []byte
+		emptyField = []byte{0x80}
+		switch r.Datf {
+		case "absent":
+		case "emptyList":
+			s.datField = []byte{0x80}
+			emptyField = s.datField
+		case "emptySet":
+			s.datField = []byte{0xd9, 0x01, 0x02, 0x80}
+			emptyField = s.datField
+		case "list", "set":
+			datOrig, datCanon = datums(s.datForm, r.Datf == "set")
+			s.datField = datOrig
+		default:
+			rep.Dead("row %s: unknown datum field %q", rk(r), r.Datf)
+		}
+		if (r.Datf == "list" || r.Datf == "set") != r.Dat {
+			rep.Dead("row %s: datf %q but dat = %v", rk(r), r.Datf, r.Dat)
+		}
 		if r.Decl == "reencRed" && r.Red && bytes.Equal(redOrig, redCanon) {
 			rep.Dead("redeemer form %s is canonical", s.redForm)
 		}
@@ -801,8 +822,8 @@ func rulesMode(rep *vh.Reporter, rng *rand.Rand, eraName, viewsPath, rulesPath s
 				return empty
 			case "none":
 				return nil
-			case "emptylist":
-				return []byte{0x80}
+			case "emptyfield":
+				return emptyField
 			}
 			rep.Dead("row %s: unknown term part %q", rk(r), kind)
 			return nil
@@ -858,6 +879,9 @@ func rulesMode(rep *vh.Reporter, rng *rand.Rand, eraName, viewsPath, rulesPath s
 				nRed++
 			}
 		}
+		if s.datField != nil && !bytes.Contains(raw, append([]byte{0x04}, s.datField...)) {
+			rep.Dead("%s %s: the datum field is not in the built transaction", era.name, key)
+		}
 		if w == nil || (nRed > 0) != r.Red || (len(w.PlutusData()) > 0) != r.Dat ||
 			(len(w.PlutusV1Scripts()) > 0) != hasLang(r.L, 0) || (len(w.PlutusV2Scripts()) > 0) != hasLang(r.L, 1) ||
 			(len(w.PlutusV3Scripts()) > 0) != hasLang(r.L, 2) || (len(common.PlutusV4ScriptsFromWitnessSet(w)) > 0) != hasLang(r.L, 3) {
@@ -869,7 +893,7 @@ func rulesMode(rep *vh.Reporter, rng *rand.Rand, eraName, viewsPath, rulesPath s
 		}
 		pp := era.pparams(toUintMap(cm, nil), era.name == "dijkstra" && ri%4 < 2)
 		replay := map[string]any{"row": *r, "era": era.name, "tx_cbor": fmt.Sprintf("%x", raw), "cost_models": cm,
-			"redeemer_form": s.redForm, "datum_form": s.datForm, "tagged_sets": s.tagged,
+			"redeemer_form": s.redForm, "datum_form": s.datForm, "datum_field": fmt.Sprintf("%x", s.datField), "tagged_sets": s.tagged,
 			"right_hash": fmt.Sprintf("%x", right), "declared_hash": fmt.Sprintf("%x", s.declared)}
 		var fnErr error
 		listReject := ""
